@@ -130,4 +130,12 @@ PROPS = {
                 ]
         ]
 },
+    "C19": {
+        "rule": "A: modelled family \u2014 13 colour-at-a-time subcommands x valid/invalid amounts, properties, format types x colours (valid, invalid, '-', empty) x stdin scripts (valid, invalid, blank, padded, non-UTF-8, with/without trailing newline, empty): exit + stdout + stderr class + message vs the Lean model; B: oracle-only \u2014 every subcommand (and unknown ones) with defective / missing / repeated / empty / huge / negative / non-UTF-8 arguments, under pipe, /dev/null, binary stdin and pty; C: faults \u2014 reader closing stdout after 0/1/5/100 bytes, closed fd 0, fake pickers on PATH (absent, exit non-zero, garbage, non-UTF-8, empty, valid, prints 'pick'); all cases non-trivial",
+        "trust": [
+                "kernel pipe/tty/signal delivery, clap 3 internals and std::process are outside the model; exercised, not proved"
+        ],
+        "cli": True,
+        "no_harness": True
+},
 }
